@@ -357,6 +357,7 @@ type HistOut struct {
 	Hash     uint64    `json:"hash"`
 	PrevH    string    `json:"prevH,omitempty"` // schedule fingerprint when the last operation started (= parent history's final fingerprint)
 	LastH    string    `json:"lastH,omitempty"`
+	Trace    []string  `json:"trace,omitempty"` // with All: one line per step (response, balances and reservations afterwards)
 }
 
 // HistOracle: per check; step oracle + canonical state + successor info.
@@ -404,6 +405,20 @@ func runHist(t *testing.T, a HistArgs) HistOut {
 		}
 		if orc.State != nil {
 			out.Key, out.Info = orc.State(w, h)
+		}
+		if a.All {
+			for i, st := range h.Steps {
+				line := fmt.Sprintf("step %d %s(u%d,s%d) -> %d units=%+v", i, st.Op.K, st.Op.U, st.Op.S, st.Resp.Code, st.Units)
+				if st.Post != nil {
+					var ues []string
+					for _, k := range sortedKeys(st.Post.UEs) {
+						u := st.Post.UEs[k]
+						ues = append(ues, fmt.Sprintf("%s res=%v mode=%v", k, u.Reserved, u.RatingType))
+					}
+					line += fmt.Sprintf(" | balances %v | %s", st.Post.Bal, strings.Join(ues, "; "))
+				}
+				out.Trace = append(out.Trace, line)
+			}
 		}
 		if n := len(h.Steps); n > 0 {
 			out.Last = &h.Steps[n-1]
